@@ -38,6 +38,9 @@ pub fn new_box(area: &str) -> Option<Box<dyn VerifBox>> {
         )),
         "c03" => Some(Box::new(crate::multistream_select::verif_c03::MssBox::new())),
         "c07" => Some(Box::new(c07::C07Box::new())),
+        "c13" => Some(Box::new(
+            crate::protocol::request_response::verif_c13::RrBox::new(),
+        )),
         _ => None,
     }
 }
@@ -54,6 +57,7 @@ pub fn areas() -> Vec<&'static str> {
         "c18",
         "c19",
     ]
+    vec!["c17", "c13"]
 }
 
 /// Decode a hex string.
